@@ -73,6 +73,10 @@ def build_sandbox(root, case, plain):
             os.makedirs(cand)
             with open(os.path.join(cand, "precious.txt"), "w") as f:
                 f.write("pre-existing directory content")
+        elif case["pre"] in ("linkfile", "linkdir", "dangling"):
+            # a symbolic link (relative, as `ln -s` makes them) leading out of the working directory
+            target = {"linkfile": "elsewhere/there.txt", "linkdir": "elsewhere", "dangling": "elsewhere/authorized_keys"}[case["pre"]]
+            os.symlink(os.path.relpath(os.path.join(root, target), os.path.dirname(cand)), cand)
     else:
         cand = None
     return {"cwd": cwd, "out": out, "cand": cand}
@@ -345,6 +349,9 @@ def zip_with(member, isdir=False):
     return b.getvalue()
 
 
+LINKY = ("linkfile", "linkdir", "dangling")
+
+
 def run(prop, tier):
     quick = tier == "quick"
     seed = common.seed()
@@ -370,6 +377,11 @@ def run(prop, tier):
         try:
             for (_, case, decision) in cases:
                 plains = [PLAIN[0], rng.choice(PLAIN[1:])] if quick else PLAIN
+                if case["pre"] in LINKY:
+                    # (the decoration of the offered name is irrelevant - DecorIrrelevant - and is varied on the other classes)
+                    if case["decor"] not in (("none", "absolute") if quick else ("none", "absolute", "parent")):
+                        continue
+                    plains = plains[:1] if quick else plains[:3]
                 for plain in plains:
                     tid += 1
                     obs = execute(root, case, decision, plain)
@@ -389,7 +401,7 @@ def run(prop, tier):
             # command does *after* deciding - on its failure paths too - is part of "never clobbers"
             ne2e = 0
             for (_, case, decision) in cases:
-                if quick and (case["decor"] != "none" or case["pretmp"]):
+                if quick and (case["decor"] != "none" or case["pretmp"] or case["pre"] in ("linkfile", "linkdir")):
                     continue
                 if not quick and case["decor"] not in ("none", "parent", "absolute"):
                     continue
